@@ -30,13 +30,19 @@ def replay_auto(p):
         dlde.decode_p1_readout = dec_r
         d = autodecoder.AutoDecoder(); d._AutoDecoder__previous_success = prev
         try:
-            if is_readout: res = d.decode_message(dlde.DataReadout(b"/ABC5\r\n\r\n1-0:1.8.0(1*kWh)\r\n!\r\n"))
+            mv = w.get("msg_valid", True)
+            def inv(cls):            # the same message class reporting itself invalid (e.g. a damaged checksum): the statement covers every message object
+                if mv: return cls
+                class _Inv(cls):
+                    is_valid = property(lambda self: False)
+                return _Inv
+            if is_readout: res = d.decode_message(inv(dlde.DataReadout)(b"/ABC5\r\n\r\n1-0:1.8.0(1*kWh)\r\n!\r\n"))
             elif is_msg and "payload None" in obl:
                 class _M(common.DlmsMessage):
                     payload = None
                 res = d.decode_message(_M(b"")); outs = [1] * N
             elif is_msg and "payload empty" in obl: res = d.decode_message(common.DlmsMessage(b"")); outs = [1] * N
-            elif is_msg: res = d.decode_message(common.DlmsMessage(b"\x01\x02\x03\x04\x05"))
+            elif is_msg: res = d.decode_message(inv(common.DlmsMessage)(b"\x01\x02\x03\x04\x05"))
             else: res = d.decode_message_payload(b"\x01")
         except Exception as ex: return {"violated": True, "detail": f"decode raised {ex!r}"}
         acc = [k for k in range(N) if k < len(outs) and outs[k] == 0]
